@@ -7,7 +7,7 @@ from fractions import Fraction
 from .. import dag, qk
 from ..arr import Arr
 from ..core import pmap
-from ..pe import PE, Obj, Env, named_arguments
+from ..pe import PE, Obj, Env, decide_on_values, named_arguments
 from ..series import valuation_at_least
 from ..src import load, stmt_text
 
@@ -15,7 +15,10 @@ LEVEL = "proof"
 META = {
     "text": "(1) UNIT RATIO: with L = ln(xi^2) = 0 the integrand kernels quad_ker_qcd / quad_ker_qed extracted for the exponentiated "
             "and for the expanded scheme are proved identical, as formulas, to the unvaried kernel, for every order, sector and a "
-            "representative of each method class (QCD orders 1-4, QED orders (n,1..2)); likewise the matching kernel. (2) "
+            "representative of each method class (QCD orders 1-4, QED orders (n,1..2)); likewise the matching kernel (quad_ker_ome with "
+            "symbolic matrix elements). (2c) MATCHING KERNEL: quad_ker_ome in the exponentiated scheme, evaluated at the (nf+1)-flavour "
+            "coupling of xi^2 mu_h^2 (RGE series of nf+1 flavours), differs from the central matching kernel only beyond the matching "
+            "order, for nf = 3, 4, 5 light flavours, matching orders 1-3, singlet and non-singlet entries. (2) "
             "WORKING ORDER, non-singlet closed form: for the exact kernel the scale-varied combination K_sv(a(xi^2 mu^2)) is shown "
             "to differ from the unvaried one only at relative order a^n: the expanded factor times the kernel evaluated at the "
             "shifted coupling, with the coupling shift given by the RGE series, has ln-ratio valuation >= n in the joint scaling "
@@ -168,6 +171,70 @@ def run(chk):
                    f"order={n}, singlet expanded factor: differs from the path-ordered exponential of gamma over ln xi^2 (kept in "
                    f"order) below a^{n}: the scale-varied singlet operator then differs from the central one below relative order a^{n}",
                    where=fsv.where, instance=f"{n},singlet-expanded", data={"witness": info}, how="Picard series + PIT F_p")
+    # ---- (2c) the matching kernel in the exponentiated scheme ----------------------------------------------------------------------
+    # central: M(a) = 1 + sum_k a^k A_k with a the (nf+1)-flavour coupling at the matching scale; exponentiated: the same series in the
+    # coupling at xi^2 times that scale with re-expanded coefficients.  The two agree through a^K (K the matching order) exactly when the
+    # re-expansion uses the beta function of THAT coupling, i.e. of nf+1 flavours - decided on quad_ker_ome itself with symbolic matrix
+    # elements, so the flavour number handed to the re-expansion at the call site is part of what is decided.
+    from ..pe import Opaque, PERaise
+
+    fo = src.func(f"{qk.QK}.quad_ker_ome")
+    OMEQ = "ekore.operator_matrix_elements.unpolarized.space_like"
+    n_ome = 0
+    for nf_light in (3, 4, 5):
+        betas_up = [dag.substitute(lit.BETA_QCD[(2 + i, 0)][0], {"nf": nf_light + 1}) for i in range(4)]
+        series_up = alg.running_coupling_series(betas_up, 5, -1)
+        a_c = dag.sym("a")
+        a_sv = dag.addn([dag.mul(series_up.coeff_a(i, L), dag.power(a_c, i)) for i in range(1, 6) if series_up.coeff_a(i, L) is not None])
+        for K in (1, 2, 3):
+            for sector, (m0, m1), dim in (("singlet", (100, 21), 3), ("singlet", (90, 90), 3), ("non-singlet", (200, 200), 2)):
+                src_o, peo = qk.make_pe()
+                prev_assume = peo.assume
+
+                def assume_generic(text, env, peo=peo, prev_assume=prev_assume):
+                    r = prev_assume(text, env)
+                    return r if r is not None else decide_on_values(peo, text, env)    # a generic integrand factor is not zero
+
+                peo.assume = assume_generic
+
+                class KB(Opaque):
+                    def __init__(self, u, is_log, logx, mode0):
+                        self.is_singlet = mode0 in (100, 21, 90)
+                        self.is_QEDsinglet = False
+                        self.n = dag.sym("N")
+
+                    def integrand(self, areas):
+                        return dag.sym("J")
+
+                peo.overrides[f"{qk.QK}.QuadKerBase"] = lambda p_, a, k: KB(*a)
+                Asym = Arr.from_nested([[[dag.sym(f"A{k}_{r}{c}") for c in range(dim)] for r in range(dim)] for k in range(1, K + 1)])
+                peo.overrides[f"{OMEQ}.A_singlet"] = lambda p_, a, k, Asym=Asym: Asym.copy()
+                peo.overrides[f"{OMEQ}.A_non_singlet"] = lambda p_, a, k, Asym=Asym: Asym.copy()
+                _M, SVo = qk.enums(peo)
+
+                def ker(mode, coupling, Lsv_):
+                    return peo.call(fo.qname, [dag.sym("u"), (K, 0), m0, m1, True, dag.sym("logx"), "AREAS", coupling, nf_light, dag.sym("Lm"), SVo[mode], Lsv_,
+                                               None, False, False, False])
+
+                inst = f"matching order {K}, {sector} ({m0},{m1}), {nf_light}->{nf_light + 1} flavours"
+                try:
+                    central = ker("unvaried", a_c, 0)
+                    varied = ker("exponentiated", a_sv, L)
+                    unit = ker("exponentiated", a_c, 0)
+                except PERaise as e:
+                    chk.fail("scale-variation-is-higher-order", fo.qname, f"{inst}: quad_ker_ome raises {e}", where=fo.where, instance=inst)
+                    continue
+                n_ome += 1
+                oku, _ = dag.is_zero_fp([dag.sub(dag.tonode(unit), dag.tonode(central))], chk.seed, 2)
+                chk.decide(oku, "unit-ratio-reproduces-unvaried-kernel", fo.qname, f"{inst}: with xi=1 the exponentiated matching kernel differs from the "
+                           f"unvaried one", where=fo.where, instance=inst, how="PE + PIT")
+                ok, info = valuation_at_least([dag.sub(dag.tonode(varied), dag.tonode(central))], {"a": 1}, K + 1, chk.seed, 2)
+                chk.decide(ok, "scale-variation-is-higher-order", fo.qname,
+                           f"{inst}, exponentiated: the matching kernel at the coupling of xi^2 mu_h^2 differs from the central one at order "
+                           f"a^{info.get('lowest_power')} (required: not below a^{K + 1}); the series in the ({nf_light + 1})-flavour coupling must be "
+                           f"re-expanded with the beta function of {nf_light + 1} flavours", where=fo.where, instance=inst, data={"witness": info},
+                           how="PE of quad_ker_ome with symbolic matrix elements + Laurent series over F_p")
+    chk.floor("matching-kernel instances", n_ome, 27)
     # ---- (3) structure ------------------------------------------------------------------------------------------------------
     pe2 = PE(src)
     n_tab = mu2_table(chk, src, pe2)
